@@ -30,19 +30,19 @@ Proof.
   unfold tmap. rewrite rev_append_rev', rev_map_acc_spec, !app_nil_r. apply rev_involutive.
 Qed.
 
-Lemma omap_acc_map {A B} (f : B -> option A) (g : A -> B) :
+Lemma all_some_acc_map {A B} (f : B -> option A) (g : A -> B) :
   forall l, Forall (fun x => f (g x) = Some x) l ->
-  forall acc, omap_acc f (map g l) acc = Some (rev acc ++ l).
+  forall acc, all_some_acc f (map g l) acc = Some (rev acc ++ l).
 Proof.
-  induction 1 as [|x l Hx _ IH]; intro acc; cbn [map omap_acc].
+  induction 1 as [|x l Hx _ IH]; intro acc; cbn [map all_some_acc].
   - rewrite rev_append_rev', !app_nil_r. reflexivity.
   - rewrite Hx, IH. cbn [rev]. rewrite <- app_assoc. reflexivity.
 Qed.
 
-Lemma omap_map {A B} (f : B -> option A) (g : A -> B) l :
-  (forall x, f (g x) = Some x) -> omap f (map g l) = Some l.
+Lemma all_some_map {A B} (f : B -> option A) (g : A -> B) l :
+  (forall x, f (g x) = Some x) -> all_some f (map g l) = Some l.
 Proof.
-  intro H. unfold omap. rewrite omap_acc_map; [reflexivity|].
+  intro H. unfold all_some. rewrite all_some_acc_map; [reflexivity|].
   apply Forall_forall; auto.
 Qed.
 
@@ -109,8 +109,8 @@ Proof.
 Qed.
 
 Lemma byte_seq_back b :
-  omap (fun x => match x with VInt n => Some n | _ => None end) (map VInt b) = Some b.
-Proof. apply omap_map; reflexivity. Qed.
+  all_some (fun x => match x with VInt n => Some n | _ => None end) (map VInt b) = Some b.
+Proof. apply all_some_map; reflexivity. Qed.
 
 Lemma wt_int w x : x < 2 ^ (8 * N.of_nat w) -> wt (TInt w) (VInt x) = true.
 Proof. intro H. cbn [wt]. unfold fits. apply N.ltb_lt. exact H. Qed.
